@@ -48,7 +48,7 @@ PROPS = {
                        'then Ring(slot), Fence, AvailIdx(old+1) in this order; pop_used/recycle/set_dev_notify never store the available index',
     },
     'C03': {
-        'level': 'proof', 'units': ['queue'],
+        'level': 'proof', 'units': ['queue', 'sndnb'],
         'kani_quick': ['k_refuse', 'k_life_direct'],
         'kani_thorough': ['k_life_direct_anyidx', 'k_life_indirect_anyidx', 'k_two_direct', 'k_two_indirect'],
         'kani_bounds': {'k_refuse': 'bounded stand-in: SIZE=4', 'k_life_*': 'bounded stand-in: SIZE=4, one chain'},
@@ -57,7 +57,7 @@ PROPS = {
                        '(wrapping arithmetic in the contracts); refusal <=> no buffers or capacity, with *self unchanged',
     },
     'C04': {
-        'level': 'proof', 'units': ['queue', 'net'],
+        'level': 'proof', 'units': ['queue', 'net', 'sndnb'],
         'kani_quick': ['k_life_indirect'],
         'kani_thorough': ['k_life_direct', 'k_two_direct', 'k_two_indirect'],
         'kani_bounds': {'k_life_*': 'bounded stand-in: SIZE=4, one chain; HAL call ledger with bouncing addresses'},
